@@ -123,7 +123,10 @@ class ServerBase(object):
             ctx.out_object = (None,)
 
         elif isinstance(ctx.out_object, Ignored):
-            ctx.out_object = ()
+            # only a wrapped method with many return values gets here with a
+            # bare Ignored: it gets one empty value per declared return value.
+            ctx.out_object = (None,) * \
+                                 len(ctx.descriptor.out_message._type_info)
 
     def convert_pull_to_push(self, ctx, gen):
         oobj, = ctx.out_object
